@@ -37,7 +37,7 @@ COMPONENTS = {
     'real': ['bamSplitByTag __main__ driver loop + split_bam_by_tag (re-executed with runpy in a forked child, real BAM files in scratch)', 'singlecellmultiomics.pyutils.handlelimiter.HandleLimiter', 'singlecellmultiomics.fastqProcessing.fastqHandle.FastqHandle(single_cell=True)', 'gzip.GzipFile'],
     'stub': ['SimPool for the index step of bamSplitByTag (multiprocessing.Pool rebound in the child)', 'SimFS (handlelimiter.gzip / handlelimiter.open): in-memory files, fd budget, transient/permanent open faults', 'SimClock (handlelimiter.time)'],
 }
-REQUIRED_PROBES = ['split_limit_below_cell_count', 'emfile_recovery', 'prune_closed_then_reopened', 'transient_fault_fired', 'permanent_fault_fired', 'write_raised_legitimately']
+REQUIRED_PROBES = ['stale_file_present', 'split_colliding_tag_values', 'split_limit_below_cell_count', 'emfile_recovery', 'prune_closed_then_reopened', 'transient_fault_fired', 'permanent_fault_fired', 'write_raised_legitimately']
 EXHAUSTIVE_NOTE = 'fault plans are enumerated per sampled write sequence (capped at 48 indices per kind); write sequences are sampled'
 ERRNOS = [errno.EMFILE, errno.ENFILE, errno.EIO]
 
@@ -88,6 +88,8 @@ def generate(seed, tier):
         'clock': weighted(st.schedule, [('monotone', 4), ('ties', 2), ('frozen', 1), ('backjump', 2)]),
         'clock_jump_at': st.schedule.randint(1, max(1, n_writes)),
         'paired': w.random() < 0.5,
+        # leftovers of an earlier run in the same output folder: the first write to a path must replace them
+        'stale': sorted(w.sample(range(n_paths), w.randint(1, min(3, n_paths)))) if w.random() < 0.3 else [],
     }
     # ---- enumerated fault family ------------------------------------
     plans = [{'kind': 'none', 'budget': None, 'transient': [], 'permanent': []}]
@@ -114,8 +116,10 @@ def generate(seed, tier):
         ncell = weighted(w, [(1, 1), (w.randint(2, 6), 5), (w.randint(7, 14), 2)])
         nread = weighted(w, [(w.randint(1, 10), 3), (w.randint(11, 60), 4)])
         reads = [[w.randrange(ncell), i, w.random() < 0.9] for i in range(nread)]     # [cell, id, has_tag]
+        # tag values that become the same file name after clean-up ('plate 1' / 'plate_1' / 'plate*1' ...): one file holds them all
+        collide = w.random() < 0.35
         limits = sorted({1, ncell, ncell + 1, max(1, ncell - 1), w.randint(1, ncell + 1), 400})
-        case['split'] = {'cells': ncell, 'reads': reads, 'max_handles': limits}
+        case['split'] = {'cells': ncell, 'reads': reads, 'max_handles': limits, 'collide': collide}
     return case
 
 
@@ -157,6 +161,12 @@ def run_plan(params, writes, fplan, log):
     fs = SimFS(log, budget=fplan['budget'], transient={int(a): b for a, b in fplan['transient']},
                permanent=[f'/sim/p{p}' for p in fplan['permanent']])
     clock = SimClock(params['clock'], jump_at=params['clock_jump_at'])
+    for sp_ in params.get('stale') or []:
+        names = [f'/sim/p{sp_}'] if params['api'] == 'limiter' else [f'/sim/out.p{sp_}.SIM.R1.fastq.gz', f'/sim/out.p{sp_}.SIM.R2.fastq.gz']
+        for nm_ in names:
+            old = '@wSTALE\nOLDRUN\n'
+            fs.files[nm_] = io.BytesIO(gzip.compress(old.encode(), mtime=0) if params['method'] == 1 else old.encode())
+        probe('stale_file_present')
     saved = (hl.__dict__.get('gzip'), hl.__dict__.get('time'), hl.__dict__.get('open', None))
     hl.gzip = fs.gzip_module()
     hl.time = clock
@@ -255,6 +265,9 @@ def run_plan(params, writes, fplan, log):
                      'detail': {'open': fs.open_count, 'paths': sorted(k for k, v in fs.open_paths.items() if v)[:5], 'plan': fplan}})
     for path, exp in sorted(acked.items()):
         need = [t for t, req in exp if req]
+        opened = any(pth == path and outc == 'ok' for (_, pth, _, outc) in fs.attempt_trace)
+        if not opened and not need:
+            continue        # never opened in this run (e.g. permanently failing path): whatever an earlier run left there is untouched
         if path not in fs.files:
             if need:
                 viol.append({'property': PROPERTY, 'class': 'lost-record', 'signature': 'file-missing',
@@ -359,6 +372,13 @@ def _split_child(d, bam, k, seed, wfd):
     os._exit(0)
 
 
+def _tagvalue(sp, cell, i):
+    """raw tag value; with 'collide' several raw spellings clean up to the same file name LIB_<cell>"""
+    if not sp.get('collide'):
+        return f'LIB_{cell}'
+    return [f'LIB_{cell}', f'LIB {cell}', f'LIB_{cell}*', f' LIB_{cell}'][(i + cell) % 4]
+
+
 def run_split(case, log, probes):
     import json
     import os
@@ -380,13 +400,15 @@ def run_split(case, log, probes):
                 r.cigartuples = [(0, 4)]
                 r.mapping_quality = 60
                 if tagged:
-                    r.set_tag('SM', f'LIB_{cell}')
+                    r.set_tag('SM', _tagvalue(sp, cell, i))
                 o.write(r)
         pysam.index(bam)
         want = {}
         for cell, i, tagged in sp['reads']:
             if tagged:
-                want.setdefault(f'LIB_{cell}', []).append(f'q{i}')
+                want.setdefault(f'LIB_{cell}', []).append(f'q{i}')     # the cleaned-up name; colliding raw values share the file
+        if sp.get('collide'):
+            probes['split_colliding_tag_values'] = probes.get('split_colliding_tag_values', 0) + 1
         for k in sp['max_handles']:
             n += 1
             rfd, wfd = os.pipe()
